@@ -211,8 +211,12 @@ def _collect_calls(b: Block, called: set, order: List[int]) -> None:
 
 class Renderer:  # pylint: disable=too-many-instance-attributes
     def __init__(self, atoms: Sequence[Sequence[str]], version: int = 8, subs_first: bool = False, fall_off: bool = False, label_prefix: str = "",
-                 pad: Sequence[str] = ("int 7", "pop")):
+                 pad: Sequence[str] = ("int 7", "pop"), entry_loop: bool = False):
         self.atoms = atoms
+        # entry_loop: a loop that is the first statement of a subroutine uses the subroutine's own label as
+        # its header (the back edge targets the entry label itself)
+        self.entry_loop = entry_loop
+        self._forced_loop: Optional[str] = None
         self.pad = list(pad)
         self.version = version
         self.subs_first = subs_first
@@ -252,6 +256,7 @@ class Renderer:  # pylint: disable=too-many-instance-attributes
     def stmt(self, s: Stmt) -> bool:  # pylint: disable=too-many-branches,too-many-statements
         kind = s[0]
         self.stmt_lines.append((len(self.lines), kind))
+        forced, self._forced_loop = self._forced_loop, None
         if kind == "assert":
             self.cond(s[1])
             self.lines.append("assert")
@@ -296,10 +301,11 @@ class Renderer:  # pylint: disable=too-many-instance-attributes
                     return True
         elif kind == "while":
             _, c, pol, body = s
-            loop = self.fresh("loop")
+            loop = forced or self.fresh("loop")
             if pol == "bz":
                 done = self.fresh("done")
-                self.lines.append(f"{loop}:")
+                if not forced:
+                    self.lines.append(f"{loop}:")
                 self.cond(c)
                 self.lines.append(f"bz {done}")
                 term = self.block(body)
@@ -307,7 +313,8 @@ class Renderer:  # pylint: disable=too-many-instance-attributes
                     self.lines.append(f"b {loop}")
                 self.lines.append(f"{done}:")
             else:
-                self.lines.append(f"{loop}:")
+                if not forced:
+                    self.lines.append(f"{loop}:")
                 term = self.block(body)
                 if term:
                     return True
@@ -325,7 +332,9 @@ class Renderer:  # pylint: disable=too-many-instance-attributes
         main_lines = self.lines
         for i, sb in enumerate(subs):
             self.lines = [f"{self.lp}sub_{i}:"]
+            self._forced_loop = f"{self.lp}sub_{i}" if (self.entry_loop and sb and sb[0][0] == "while") else None
             t = self.block(sb)
+            self._forced_loop = None
             if not t:
                 self.lines.append("retsub")
             sub_chunks.append(self.lines)
